@@ -18,7 +18,7 @@ MODQ = {k: f"exponax.etdrk._etdrk_{k}.ETDRK{k}" for k in CLS}
 P_ALL = {"C01", "C02", "C08", "C09", "C10", "C11", "C12", "C13"}
 
 # ---------------------------------------------------------------------------- roots_of_unity
-Contract("exponax.etdrk._utils.roots_of_unity", props={"C02"},
+Contract("exponax.etdrk._utils.roots_of_unity", props=P_ALL - {"C01", "C11"},   # (every property that rests on the ETDRK1-4 coefficients)
          cases=[Case("M symbolic", lambda e: ((sym.integer(e, "M", lo=1),), {}))],
          requires=lambda M: [("M >= 1", smt.rge(T(M), 1))],
          spec=lambda M: SE.roots_of_unity(M))
